@@ -225,7 +225,7 @@ func (g *gen) next() Call {
 		c.Data = g.randData()
 		c.Off = g.r.Intn(9) - 1
 	case "seek":
-		c.Wh = g.r.Intn(3)
+		c.Wh = []int{0, 1, 2, 0, 1, 2, 7}[g.r.Intn(7)]
 		c.Off = g.r.Intn(10) - 3
 	case "ftruncate":
 		c.N = g.r.Intn(8) - 1
